@@ -24,10 +24,6 @@ def expEA (orig : List Nat) : Res WArr → Res (Bool × List Int)
 theorem expEA_error (o : List Nat) {e : Fault} (h : NotArg e) : expEA o (.error e) = .error e := by
   cases e <;> first | rfl | exact absurd rfl h
 
-macro "resolve_ifs" : tactic =>
-  `(tactic| simp (disch := omega) only [Bool.or_eq_true, Bool.and_eq_true, decide_eq_true_eq, bne_iff_ne, beq_iff_eq, ne_eq,
-      if_pos, if_neg])
-
 when_kernel Gzx.Gen.K16b.arrayGet in
 /-- `BitArray.Get(i)` = `WArr.get` (the copy of the kernel that the K16b callers use) -/
 theorem k_arrayGet_eq (a : WArr) (i : Nat) : Gen.K16b.arrayGet (words a.words) i = WArr.get a i := by
